@@ -7,6 +7,7 @@ Case lines (harness/src/fam/pixel.rs):
   <id> cf <RGBA8|RGB5A3|CI8|Unrecognized> <payload>     `ColorFormat::decode`
   <id> cfi <fmt> <data> <palette>          `ColorFormat::decode_indexed`
   <id> ci8 <w> <h> <palette> <image>       CI8 image + RGB5A3 palette through a single-image TPL
+  <id> tplx <fmt> <w> <h> <pal> <image>    any TPL image format through a single-image TPL
   <id> probe <fmt> <w> <h>                 payload-size probe: canonical CTPK with an all-zero payload of
                                            exactly the required size, and the same file one byte shorter
 Implementation line: `<id> <dev|release> ok <hex>` | `… err <Class>` | `… panic` (probe: two classes).
@@ -190,6 +191,13 @@ def family : Family where
         match implOk i with
         | some o => judgeCi8 w h palette image o
         | none => "FAIL a CI8 image with in-range indices must decode, got " ++ " ".intercalate (i.drop 2))
+    | [_, "tplx", fmt, w, h, palette, image] =>
+      -- any TPL image format through a single-image TPL (exact-size image data): the parse accepts the
+      -- format numbers of `TplImageFormat`, then `extract_textures` decodes (only CI8 succeeds)
+      let (fmt, w, h, palette, image) := (fmt.toNat!, w.toNat!, h.toNat!, bufOfHex palette, bufOfHex image)
+      if image.size ≠ tplImageBytes fmt h w then out "bad-case" "ok skip bad-case" else
+      let m := if tplImageFormatOk fmt then resBuf (tplDecodeImage 2 palette fmt h w image) else "err Other"
+      out m "ok skip"
     | [_, "probe", fmt, w, h] =>
       let (fmt, w, h) := (fmt.toNat!, w.toNat!, h.toNat!)
       -- the harness computes the required size in integer arithmetic: bits-per-pixel table × w × h / 8
